@@ -19,8 +19,22 @@ var ctxb = context.Background()
 // abort ends a run without a verdict (the history could not be completed).
 type abortRun struct{ why string }
 
+// errClass shortens an error to a stable class name for the counters.
+func errClass(err error) string {
+	var b []byte
+	for _, c := range []byte(err.Error()) {
+		switch {
+		case c >= '0' && c <= '9', c == '.':
+		case len(b) < 48:
+			b = append(b, c)
+		}
+	}
+	return string(b)
+}
+
 func (e *Env) abort(why string, err error) {
 	e.R.Count("history_abort")
+	e.R.Count("history_abort:" + why)
 	e.R.Logf("ABORT (history could not complete, run not judged): %s: %v", why, err)
 	panic(abortRun{why})
 }
@@ -40,22 +54,64 @@ func drawSetup(t *simcore.Tape, segwitOnly bool) setup {
 	// starting with nothing (no push amount) is the most common real state.
 	pcts := []int{100, 100, 99, 90, 70, 50, 30, 10, 1}
 	cfg.OpenerPct = pcts[t.CfgDraw(len(pcts))]
+	// small channels make "opener below its dust limit / below the fee" common
+	s.histKind = t.CfgDraw(4)
+	if c := t.CfgDraw(5); c >= 3 && s.histKind != 3 {
+		old := cfg.CapacitySat
+		cfg.CapacitySat = []btcutil.Amount{20_000, 50_000}[c-3]
+		if cfg.ReserveA == old/100 || cfg.ReserveA == cfg.DustA && old/100 < cfg.DustA {
+			cfg.ReserveA, cfg.ReserveB = cfg.CapacitySat/100, cfg.CapacitySat/100
+			if cfg.ReserveA < cfg.DustA {
+				cfg.ReserveA = cfg.DustA
+			}
+			if cfg.ReserveB < cfg.DustB {
+				cfg.ReserveB = cfg.DustB
+			}
+		}
+	}
 	if t.CfgDraw(3) == 0 {
 		// tiny reserves let histories drive either side below its dust
 		// limit (the property quantifies over such states).
 		cfg.ReserveA, cfg.ReserveB = 0, 0
 	}
 	// keep the opening commitment payable
+	// a quarter of the own-history runs start with an opener that has spent
+	// nearly everything: its whole balance is the commitment fee, the
+	// anchors and up to a few thousand satoshi.
+	if t.CfgDraw(4) == 0 && s.histKind != 3 {
+		cfg.CapacitySat = 20_000
+		cfg.FeePerKw = 253
+		cfg.OpenerPct = 1 + t.CfgDraw(16)
+		cfg.ReserveA, cfg.ReserveB = 0, 0
+	}
 	commitFee := cfg.FeePerKw.FeeForWeight(lnwallet.CommitWeight(cfg.ChanType))
 	var anchors btcutil.Amount
 	if cfg.ChanType.HasAnchors() {
 		anchors = 2 * lnwallet.AnchorSize
 	}
-	if cfg.CapacitySat*btcutil.Amount(cfg.OpenerPct)/100 < commitFee+anchors+cfg.DustA+cfg.DustB {
-		cfg.OpenerPct = 50
+	dustO, dustN := cfg.DustA, cfg.DustB
+	if !cfg.OpenerIsA {
+		dustO, dustN = dustN, dustO
+	}
+	// the opening commitments must be payable and keep an output (each
+	// commitment trims BOTH outputs by its owner's dust limit)
+	pick := func() bool {
+		for _, p := range []int{cfg.OpenerPct, 50, 90, 100, 30, 10} {
+			open := cfg.CapacitySat * btcutil.Amount(p) / 100
+			net := open - commitFee - anchors
+			if net >= 0 && max(net, cfg.CapacitySat-open) >= max(dustO, dustN) {
+				cfg.OpenerPct = p
+				return true
+			}
+		}
+		return false
+	}
+	if !pick() {
+		cfg.FeePerKw = 253
+		commitFee = cfg.FeePerKw.FeeForWeight(lnwallet.CommitWeight(cfg.ChanType))
+		pick()
 	}
 	s.cfg = cfg
-	s.histKind = t.CfgDraw(4)
 	s.nHist = 1 + t.CfgDraw(4)
 	n := nScriptKinds
 	if segwitOnly {
@@ -71,6 +127,7 @@ func drawSetup(t *simcore.Tape, segwitOnly bool) setup {
 func build(r *simcore.Run, s setup) *Env {
 	e := &Env{R: r, Cfg: s.cfg}
 	cfg := s.cfg
+	r.Logf("setup: %v history=%d/%d", cfg, s.histKind, s.nHist)
 	if !cfg.OpenerIsA {
 		e.Opener = 1
 	}
